@@ -73,8 +73,13 @@ typedef struct { const uint8_t* buffer_; size_t size_; } IMS;
   __CPROVER_ensures(IMS_ADVANCED(this, count)) \
   __CPROVER_ensures(IMS_VALID(this))
 #ifndef IMS_BODIES
+/* the constructor is used with its own (extracted) body, not by contract: dfcc's havoc of a struct that holds a pointer
+   followed by `assume(buffer_ == buffer)` loses the link between the cursor and the buffer's CONTENT (measured) */
+//@ func include/tins/memory_helpers.h "InputMemoryStream::InputMemoryStream" match "const uint8_t* buffer, size_t total_sz"
+sig: static void IMS_ctor(IMS* this, const uint8_t* buffer, size_t total_sz)
+inits: lower
+//@ endfunc
 void IMS_read_vec(IMS* this, size_t count) IMS_READ_VEC_CONTRACT;
-void IMS_ctor(IMS* this, const uint8_t* buffer, size_t total_sz) IMS_CTOR_CONTRACT;
 void IMS_skip(IMS* this, size_t size) IMS_SKIP_CONTRACT;
 _Bool IMS_can_read(const IMS* this, size_t byte_count) IMS_CAN_READ_CONTRACT;
 void IMS_read_obj(IMS* this, void* output, size_t n) IMS_READ_OBJ_CONTRACT;
@@ -94,4 +99,4 @@ size_t IMS_size(const IMS* this) IMS_SIZE_CONTRACT;
 void IMS_size_set(IMS* this, size_t new_size) IMS_SIZE_SET_CONTRACT;
 _Bool IMS_bool(const IMS* this) IMS_BOOL_CONTRACT;
 #endif
-#define IMS_ALL_FUNCS IMS_ctor IMS_skip IMS_can_read IMS_read_obj IMS_read_buf IMS_read_uint8_t IMS_read_uint16_t IMS_read_uint32_t IMS_read_uint64_t IMS_read_be_uint16_t IMS_read_be_uint32_t IMS_read_be_uint64_t IMS_read_le_uint16_t IMS_read_le_uint32_t IMS_read_le_uint64_t IMS_pointer IMS_size IMS_size_set IMS_bool
+#define IMS_ALL_FUNCS IMS_skip IMS_can_read IMS_read_obj IMS_read_buf IMS_read_uint8_t IMS_read_uint16_t IMS_read_uint32_t IMS_read_uint64_t IMS_read_be_uint16_t IMS_read_be_uint32_t IMS_read_be_uint64_t IMS_read_le_uint16_t IMS_read_le_uint32_t IMS_read_le_uint64_t IMS_pointer IMS_size IMS_size_set IMS_bool
